@@ -70,6 +70,7 @@ Definition overlay_body (t b : sem) (p : ovp) (maxcol maxrow : Z) (f : bool) : r
                       end
                end in
   let* top_c := m_render t tsize f in
+  if (cc top_c =? 0) || (cr top_c =? 0) then Ok bottom_c else
   let* top1 := (if (lft <? 0) || (rgt <? 0) then pad_trim_lr top_c (Z.min 0 lft) (Z.min 0 rgt) else Ok top_c) in
   let* top2 := (if (top <? 0) || (bottom <? 0) then pad_trim_tb top1 (Z.min 0 top) (Z.min 0 bottom) else Ok top1) in
   canvas_overlay top2 bottom_c (Z.max lft 0) top.
@@ -89,15 +90,15 @@ Definition overlay_given (p : ovp) : Prop :=
      | _ => True
      end.
 
-Lemma overlay_body_ok t b p c r f :
-  Good t -> (exists nb, GoodN nb b) -> s_box (m_sizing b) = true -> overlay_given p ->
+Lemma overlay_body_ok nt t b p c r f :
+  0 <= nt -> GoodN nt t -> (exists nb, GoodN nb b) -> s_box (m_sizing b) = true -> overlay_given p ->
   overlay_top_ok (m_sizing t) p = true -> 1 <= c -> 1 <= r ->
   match overlay_body t b p c r f with
   | Ok d => cc d = c /\ cr d = r /\ rect d = true /\ inside d
   | Err e => soft e
   end.
 Proof.
-  intros Gt [nb Gb] Hb [Hw [Hl [Hrg [Htp [Hbt Hh]]]]] Hok Hc Hr.
+  intros Hnt Gt [nb Gb] Hb [Hw [Hl [Hrg [Htp [Hbt Hh]]]]] Hok Hc Hr.
   unfold overlay_body, overlay_cpf.
   assert (Hnc : ov_wt p <> WClip /\ ov_wt p <> WPack).
   { destruct (ov_wt p); try contradiction; split; discriminate. }
@@ -150,6 +151,7 @@ Proof.
     pose proof (g_box t Gt (c - lft - rgt) (r - top - bottom) f (proj2 Hok') ltac:(lia) ltac:(lia)) as T.
     destruct (m_render t (SBox (c - lft - rgt) (r - top - bottom)) f) as [tc|e]; cbn [bind]; [|exact T].
     destruct T as [[T1 T2] [T3 T4]].
+    replace ((cc tc =? 0) || (cr tc =? 0)) with false by lia.
     replace ((lft <? 0) || (rgt <? 0)) with false by lia. cbn [bind].
     replace ((top <? 0) || (bottom <? 0)) with false by lia. cbn [bind].
     replace (Z.max lft 0) with lft by lia.
@@ -169,6 +171,7 @@ Proof.
       rewrite (ET 0 0).
       destruct (m_render t (SFlow (c - lft - rgt)) f) as [tc|e]; cbn [bind]; [|exact T].
       destruct T as [[T1 T2] [T3 T4]]. assert (cr tc = h) by congruence.
+      replace ((cc tc =? 0) || (cr tc =? 0)) with false by lia.
       replace ((lft <? 0) || (rgt <? 0)) with false by lia. cbn [bind].
       replace ((0 <? 0) || (r - h <? 0)) with true by lia.
       replace (Z.min 0 0) with 0 by lia. replace (Z.min 0 (r - h)) with (r - h) by lia.
@@ -186,6 +189,10 @@ Proof.
       rewrite (ET 0 0).
       destruct (m_render t (SFlow (c - lft - rgt)) f) as [tc|e]; cbn [bind]; [|exact T].
       destruct T as [[T1 T2] [T3 T4]]. assert (cr tc = h) by congruence.
+      destruct (Z.eq_dec h 0) as [Hh0|Hh0].
+      { (* a top widget without rows: the bottom canvas alone (f9cf74e) *)
+        replace ((cc tc =? 0) || (cr tc =? 0)) with true by lia. fin. }
+      replace ((cc tc =? 0) || (cr tc =? 0)) with false by lia.
       replace ((lft <? 0) || (rgt <? 0)) with false by lia. cbn [bind].
       replace ((top <? 0) || (bottom <? 0)) with false by lia. cbn [bind].
       replace (Z.max lft 0) with lft by lia.
@@ -206,11 +213,50 @@ Proof.
     pose proof (g_box t Gt (c - lft - rgt) (r - top - bottom) f (proj2 Hok') ltac:(lia) ltac:(lia)) as T.
     destruct (m_render t (SBox (c - lft - rgt) (r - top - bottom)) f) as [tc|e]; cbn [bind]; [|exact T].
     destruct T as [[T1 T2] [T3 T4]].
+    replace ((cc tc =? 0) || (cr tc =? 0)) with false by lia.
     replace ((lft <? 0) || (rgt <? 0)) with false by lia. cbn [bind].
     replace ((top <? 0) || (bottom <? 0)) with false by lia. cbn [bind].
     replace (Z.max lft 0) with lft by lia.
     destruct (overlay_place tc bc lft top) as [d [E [D1 [D2 [D3 D4]]]]]; try lia; auto.
     rewrite E. fin.
+Qed.
+
+(* a flow Overlay that has no rows at all (0-row top widget, height='pack', no margins) asks its bottom widget
+   for 0 rows: the starvation marker *)
+Lemma overlay_body_starved nt t b p c f :
+  0 <= nt -> GoodN nt t -> (exists nb, GoodN nb b) -> overlay_given p ->
+  overlay_top_ok (m_sizing t) p = true -> 1 <= c ->
+  match overlay_body t b p c 0 f with Ok _ => False | Err e => soft e end.
+Proof.
+  intros Hnt Gt [nb Gb] [Hw [Hl [Hrg [Htp [Hbt Hh]]]]] Hok Hc.
+  unfold overlay_body, overlay_cpf.
+  assert (Hnp : ov_wt p <> WPack) by (destruct (ov_wt p); try contradiction; discriminate).
+  assert (E0 : (match ov_wt p with
+                | WPack => let* wh := m_pack t SFixed f in
+                           if snd wh =? 0 then Err EWidget
+                           else Ok (clrp c (ov_align p) WClip (fst wh) None (ov_left p) (ov_right p), Some (snd wh))
+                | _ => Ok (clrp c (ov_align p) (ov_wt p) (wt_amount (ov_wt p)) (ov_minw p) (ov_left p) (ov_right p), None)
+                end)
+               = Ok (clrp c (ov_align p) (ov_wt p) (wt_amount (ov_wt p)) (ov_minw p) (ov_left p) (ov_right p), @None Z)).
+  { destruct (ov_wt p); try congruence; reflexivity. }
+  rewrite E0. clear E0. cbn [bind].
+  destruct (clrp c (ov_align p) (ov_wt p) (wt_amount (ov_wt p)) (ov_minw p) (ov_left p) (ov_right p)) as [lft rgt].
+  assert (D : m_render b (SBox c 0) false = Err EStarved).
+  { apply (g_deg_render b Gb). unfold degenerate. lia. }
+  unfold overlay_top_ok in Hok.
+  destruct (ov_ht p) as [n| |pct] eqn:EH.
+  - destruct (ctbf 0 (ov_valign p) (HGiven n) (ht_amount (HGiven n)) (ov_minh p) (ov_top p) (ov_bottom p)) as [top bottom].
+    cbn [bind]. rewrite D. cbn. reflexivity.
+  - assert (Hfl : s_flow (m_sizing t) = true).
+    { destruct (ov_wt p); try congruence; try contradiction; cbn in *; lia. }
+    destruct (Z_le_gt_dec (c - lft - rgt) 0) as [Hz|Hz].
+    { rewrite (g_deg_rows t Gt _ f Hz). cbn. reflexivity. }
+    pose proof (g_rows t Gt (c - lft - rgt) f Hfl ltac:(lia)) as R.
+    destruct (m_rows t (c - lft - rgt) f) as [h|e]; cbn [bind]; [|exact R].
+    destruct (ctbf 0 (ov_valign p) (HGiven h) h None (ov_top p) (ov_bottom p)) as [top bottom].
+    cbn [bind]. rewrite D. cbn. reflexivity.
+  - destruct (ctbf 0 (ov_valign p) (HRelative pct) (ht_amount (HRelative pct)) (ov_minh p) (ov_top p) (ov_bottom p)) as [top bottom].
+    cbn [bind]. rewrite D. cbn. reflexivity.
 Qed.
 
 Lemma overlay_sem_as_node t b p :
@@ -219,13 +265,16 @@ Lemma overlay_sem_as_node t b p :
           (overlay_render t b p (m_pack (overlay_sem t b p))).
 Proof. reflexivity. Qed.
 
-Lemma overlay_rows_ok t p c f :
-  Good t -> overlay_given p -> overlay_top_ok (m_sizing t) p = true ->
+(* rows of a flow Overlay: at least one unless the height is packed from a top widget without rows *)
+Definition overlay_min_rows (nt : Z) (p : ovp) : Z := match ov_ht p with HPack => nt | _ => 1 end.
+
+Lemma overlay_rows_ok nt t p c f :
+  nt <= 1 -> GoodN nt t -> overlay_given p -> overlay_top_ok (m_sizing t) p = true ->
   s_flow (overlay_sizing (m_sizing t) p) = true -> 1 <= c ->
-  match overlay_rows t p c f with Ok h => 1 <= h | Err e => soft e end.
+  match overlay_rows t p c f with Ok h => overlay_min_rows nt p <= h | Err e => soft e end.
 Proof.
-  intros Gt [Hw [Hl [Hrg [Htp [Hbt Hh]]]]] Hok Hs Hc.
-  unfold overlay_rows, overlay_sizing, overlay_top_ok in *.
+  intros Hnt Gt [Hw [Hl [Hrg [Htp [Hbt Hh]]]]] Hok Hs Hc.
+  unfold overlay_rows, overlay_sizing, overlay_top_ok, overlay_min_rows in *.
   destruct (ov_wt p) as [n| | |pct] eqn:EW; try contradiction.
   - (* given width *)
     destruct (ov_ht p) as [m| |hp] eqn:EH; cbn in *.
@@ -253,24 +302,39 @@ Proof.
       * rewrite andb_false_r in Hs. discriminate.
 Qed.
 
-Lemma overlay_good t b p :
-  Good t -> (exists nb, GoodN nb b) -> s_box (m_sizing b) = true -> overlay_given p ->
-  overlay_top_ok (m_sizing t) p = true -> Good (overlay_sem t b p).
+Lemma overlay_good nt t b p :
+  0 <= nt <= 1 -> GoodN nt t -> (exists nb, GoodN nb b) -> s_box (m_sizing b) = true -> overlay_given p ->
+  overlay_top_ok (m_sizing t) p = true -> GoodN (overlay_min_rows nt p) (overlay_sem t b p).
 Proof.
-  intros Gt Gb Hb Hg Hok. rewrite overlay_sem_as_node. apply mk_node_good.
-  - intros c f Hs Hc. apply overlay_rows_ok; auto.
+  intros Hnt Gt Gb Hb Hg Hok. rewrite overlay_sem_as_node. apply mk_node_good.
+  - intros c f Hs Hc. apply overlay_rows_ok; auto; lia.
   - intros c f Hs Hc. rewrite overlay_render_unfold.
     cbn [overlay_sem m_pack]. unfold degenerate. replace (c <=? 0) with false by lia.
     unfold default_pack. rewrite Hs. rewrite wrap_rows_valid by lia.
-    pose proof (overlay_rows_ok t p c f Gt Hg Hok Hs Hc) as R.
+    pose proof (overlay_rows_ok nt t p c f ltac:(lia) Gt Hg Hok Hs Hc) as R.
     destruct (overlay_rows t p c f) as [r|e]; cbn [bind fst snd]; [|exact R].
-    pose proof (overlay_body_ok t b p c r f Gt Gb Hb Hg Hok Hc R) as B.
-    destruct (overlay_body t b p c r f) as [d|e]; [|exact B].
-    destruct B as [B1 [B2 [B3 B4]]]. fin.
+    assert (R0 : 0 <= r) by (unfold overlay_min_rows in R; destruct (ov_ht p); lia).
+    destruct (Z.eq_dec r 0) as [Hr0|Hr0].
+    + subst r. pose proof (overlay_body_starved nt t b p c f ltac:(lia) Gt Gb Hg Hok Hc) as B.
+      destruct (overlay_body t b p c 0 f) as [d|e]; [contradiction|exact B].
+    + pose proof (overlay_body_ok nt t b p c r f ltac:(lia) Gt Gb Hb Hg Hok Hc ltac:(lia)) as B.
+      destruct (overlay_body t b p c r f) as [d|e]; [|exact B].
+      destruct B as [B1 [B2 [B3 B4]]]. fin.
   - intros c r f Hs Hc Hr. rewrite overlay_render_unfold.
     cbn [overlay_sem m_pack]. unfold degenerate. replace ((c <=? 0) || (r <=? 0)) with false by lia.
     cbn [default_pack bind fst snd].
-    pose proof (overlay_body_ok t b p c r f Gt Gb Hb Hg Hok Hc Hr) as B.
+    pose proof (overlay_body_ok nt t b p c r f ltac:(lia) Gt Gb Hb Hg Hok Hc Hr) as B.
     destruct (overlay_body t b p c r f) as [d|e]; [|exact B].
     destruct B as [B1 [B2 [B3 B4]]]. fin.
+Qed.
+
+(* the instance for a top widget that has a row *)
+Lemma overlay_good1 t b p :
+  Good t -> (exists nb, GoodN nb b) -> s_box (m_sizing b) = true -> overlay_given p ->
+  overlay_top_ok (m_sizing t) p = true -> Good (overlay_sem t b p).
+Proof.
+  intros Gt Gb Hb Hg Hok.
+  pose proof (overlay_good 1 t b p ltac:(lia) Gt Gb Hb Hg Hok) as G.
+  replace (overlay_min_rows 1 p) with 1 in G; [exact G|].
+  unfold overlay_min_rows. destruct (ov_ht p); reflexivity.
 Qed.
